@@ -28,13 +28,14 @@ META = {
 
 chanpair.instrument()
 W, P = 32768, 4096
-PRE = ["open", "shutdown_write", "closed", "peer_eof", "peer_close", "lost"]
-EVENTS = [None, "peer_close", "shutdown_write", "close", "lost", "empty_adjusts"]
+PRE = ["open", "shutdown_write", "shutdown2", "closed", "peer_eof", "peer_close", "lost"]
+EVENTS = [None, "peer_close", "shutdown_write", "shutdown2", "close", "lost", "empty_adjusts"]
 STEP_BUDGET = 60000
 
 
 def make_body(scn):
-    pre, call, size, timeout, window, event = scn
+    pre, call, size, timeout, window, event = scn[:6]
+    two = len(scn) > 6 and scn[6]
 
     def body(s):
         cp = ChanPair(wa=W, pa=P, wb=W, pb=P)
@@ -48,6 +49,8 @@ def make_body(scn):
             cp.deliver_all()
         if pre == "shutdown_write":
             a.shutdown_write()
+        elif pre == "shutdown2":
+            a.shutdown(2)
         elif pre == "closed":
             a.close()
         elif pre == "peer_eof":
@@ -79,6 +82,8 @@ def make_body(scn):
                 b.close()
             elif ev == "shutdown_write":
                 a.shutdown_write()
+            elif ev == "shutdown2":
+                a.shutdown(2)
             elif ev == "close":
                 a.close()
             elif ev == "lost":
@@ -96,9 +101,36 @@ def make_body(scn):
             m.rewind()
             a._window_adjust(m)
 
-        th = vthreading.Thread(target=caller)
+        out2 = {}
+
+        def caller2():
+            # a second application thread writing on the other stream of the same channel
+            fn = a.sendall_stderr if call == "sendall" else a.sendall
+            try:
+                out2["ret"] = fn(b"e" * size)
+                out2["kind"] = "returned"
+            except socket.timeout:
+                out2["kind"] = "timeout"
+            except socket.error as e:
+                out2["kind"] = "error"
+
+        class _Both:
+            def __init__(self, ts):
+                self.ts = ts
+                self._vt_rec = ts[0]._vt_rec if False else None
+
+            def is_alive(self):
+                return any(t.is_alive() for t in self.ts)
+
+            def join(self):
+                for t in self.ts:
+                    t.join()
+        th1 = vthreading.Thread(target=caller)
+        ths = [th1] + ([vthreading.Thread(target=caller2)] if two else [])
+        th = _Both(ths)
         s.branching = True
-        th.start()
+        for t in ths:
+            t.start()
         fired = event is None
         rounds = 0
         idle_rounds = 0
@@ -164,8 +196,11 @@ def make_body(scn):
             s.advance(1.0)     # let timeouts expire
         s.branching = False
         th.join()
-        if th._vt_rec.obj is not None:
-            raise th._vt_rec.obj
+        for t in ths:
+            if t._vt_rec.obj is not None:
+                raise t._vt_rec.obj
+        if two:
+            out["second"] = out2.get("kind")
         data = sum(len(p[2][1]) for p in map(chanpair.parse, cp.ta.packetizer.sent[base:])
                    if p[0] in (MSG_CHANNEL_DATA, MSG_CHANNEL_EXTENDED_DATA))
         out["elapsed"] = S.now() - t_start
@@ -175,7 +210,8 @@ def make_body(scn):
 
 
 def judge(scn, ex):
-    pre, call, size, timeout, window, event = scn
+    pre, call, size, timeout, window, event = scn[:6]
+    two = len(scn) > 6 and scn[6]
     if ex.outcome == "livelock":
         return "never-terminates:spins", {"err": repr(ex.error)}
     if ex.outcome == "deadlock":
@@ -183,11 +219,14 @@ def judge(scn, ex):
     if ex.outcome != "ok":
         return "harness:%s" % ex.outcome, {"err": repr(ex.error)}
     out, data, fired = ex.value
+    if out.get("kind") == "returned" and pre in ("shutdown_write", "shutdown2", "closed") and size > 0:
+        return "returned-normally-although-shut-down-for-writing", {"pre": pre, "sent": data}
     if out.get("kind") == "returned":
         if out.get("ret") is not None:
             return "returns-non-None", {"ret": repr(out["ret"])}
-        if data != size:
-            return "returned-with-data-unsent", {"sent": data, "len": size}
+        want = size * 2 if (two and out.get("second") == "returned") else size
+        if (data != want) if not two else (data < size):
+            return "returned-with-data-unsent", {"sent": data, "len": want}
         if out.get("alloc_after_shut"):
             # it took window (and sent) after the write side had been shut down: it had to raise
             return "returned-normally-although-shut-down-for-writing", {"allocations_after_shutdown": out["alloc_after_shut"]}
@@ -199,11 +238,11 @@ def judge(scn, ex):
 
 
 def pre_class(scn):
-    pre, call, size, timeout, window, event = scn
-    if pre == "shutdown_write":
-        return "after-shutdown_write"
-    if event == "shutdown_write":
-        return "concurrent-shutdown_write"
+    pre, call, size, timeout, window, event = scn[:6]
+    if pre in ("shutdown_write", "shutdown2"):
+        return "after-" + pre
+    if event in ("shutdown_write", "shutdown2"):
+        return "concurrent-" + event
     return "pre=%s,event=%s" % (pre, event)
 
 
@@ -226,6 +265,9 @@ def scenarios(tier):
                             continue
                         for ev in events:
                             out.append((pre, call, size, timeout, window, ev))
+                        # two application threads blocked on the same exhausted window (one per stream)
+                        if pre == "open" and window == "reader" and size == W + 1 and timeout in (None, 2.0):
+                            out.append((pre, call, size, timeout, window, None, True))
     return out
 
 
@@ -244,7 +286,7 @@ def run_item(items, acc):
                 o = ex.value[0]
                 outcomes.add((o.get("kind"), ex.value[1], ex.value[2]))
             if v is not None:
-                acc.violation("%s:%s:%s" % (v[0], scn[1], pre_class(scn)),
+                acc.violation("%s:%s:%s%s" % (v[0], scn[1], pre_class(scn), ":two-writers" if len(scn) > 6 and scn[6] else ""),
                               {"scn": scn, "why": v[1], "choices": ex.choices},
                               {"scn": scn, "choices": ex.choices})
 
@@ -257,7 +299,7 @@ def run_item(items, acc):
         if res.capped:
             acc.note("cap 500 hit for %r" % (scn,))
         if len(acc.samples) < 3 and len(outcomes) > 1:
-            acc.sample({"scenario": dict(zip(("pre", "call", "size", "timeout", "window", "event"), scn)),
+            acc.sample({"scenario": dict(zip(("pre", "call", "size", "timeout", "window", "event", "two_writers"), scn)),
                         "placements": res.executions, "outcomes(kind,data_bytes,event_fired)": sorted(map(list, outcomes), key=repr)})
 
 
